@@ -308,9 +308,35 @@ void Ctx::line(const std::string& l)
     off += (size_t)n;
   }
 }
+static void cpuBudgetHandler(int)
+{
+  if (g_eventFd >= 0)
+  {
+    const char* m = "X budget-cpu\n";
+    (void)!write(g_eventFd, m, strlen(m));
+  }
+  _exit(81);
+}
+// (re)arm the per-op CPU budget: an op that burns more than this much CPU time is a hang,
+// whatever the load of the machine (the wall-clock watchdog of the parent is only a last resort)
+static void armCpuBudget()
+{
+  static bool installed = false;
+  if (!installed)
+  {
+    signal(SIGVTALRM, cpuBudgetHandler);
+    installed = true;
+  }
+  struct itimerval it;
+  memset(&it, 0, sizeof it);
+  const char* e = getenv("SIMKIT_CPU_BUDGET_S");
+  it.it_value.tv_sec = e ? atoi(e) : 12;
+  setitimer(ITIMER_VIRTUAL, &it, nullptr);
+}
 void Ctx::begin(long idx, const std::string& kind)
 {
   opIndex = idx;
+  armCpuBudget();
   line("B " + std::to_string(idx) + " " + kind);
 }
 void Ctx::end(long idx, const std::string& digest) { line("A " + std::to_string(idx) + " " + digest); }
@@ -401,6 +427,9 @@ static void parseSanitizer(ChildOutcome& co)
 ChildOutcome runChild(const std::function<void(Ctx&)>& fn, int timeoutSec)
 {
   ChildOutcome co;
+  // the per-op CPU budget (armed by Ctx::begin in the child) is the hang detector; the parent's wall-clock
+  // watchdog on the silence of the event pipe only catches a child blocked without burning CPU
+  timeoutSec *= 4;
   int pe[2], ps[2];
   if (pipe(pe) != 0 || pipe(ps) != 0) { co.cls = "machinery"; return co; }
   fflush(stdout);
@@ -508,6 +537,7 @@ ChildOutcome runChild(const std::function<void(Ctx&)>& fn, int timeoutSec)
     else if (ec == 77) { co.cls = "sanitizer"; parseSanitizer(co); }
     else if (ec == 78) co.cls = "exit-called";
     else if (ec == 79) co.cls = "harness-uncaught";
+    else if (ec == 81) co.cls = "timeout"; // CPU budget of one op exhausted
     else co.cls = "exit-" + std::to_string(ec);
   }
   else if (WIFSIGNALED(st))
